@@ -861,8 +861,6 @@ def close_window(rng, i):
         steps.append({"do": "drain", "c": c})
     steps.append(op("A", "qos"))
     return {"kind": "listener-closewindow", "cfg": {}, "steps": steps}
-
-
 def backlog(rng, i):
     """More than a megabyte queued behind a stalled transport, then drained by short writes that
     never block again (large accepts, but smaller than the backlog)."""
